@@ -179,12 +179,38 @@ func genC11(env *core.Env, emit func(core.Case)) {
 	nlists := env.Pick(300, 5000)
 	for i := 0; i < nlists; i++ {
 		n := rng.IntN(9)
+		big := i < 6 // lists around the 16-bit length limit: 65535 bytes of configs fit, 65536 and more do not
 		var cfgs []ech.Config
 		var raw [][]byte
-		for j := 0; j < n; j++ {
+		for j := 0; j < n && !big; j++ {
 			c := valid[rng.IntN(len(valid))]
 			cfgs = append(cfgs, c)
 			raw = append(raw, c)
+		}
+		if big {
+			target := []int{65535, 65536, 65537, 65800, 2 * 65536, 3*65536 + 11264}[i]
+			total := 0
+			for total < target {
+				room := target - total
+				size := 251 // bytes of this config: 51 + name length
+				if room <= 600 {
+					size = room
+					if room > 306 {
+						size = room / 2
+					}
+				}
+				sp := ech.ConfigSpec{Version: 0xfe0d, ID: uint8(rng.IntN(256)), KEM: 0x20, PublicKey: randBytes(32),
+					CipherSuites: []ech.CipherSuite{{KDF: 1, AEAD: 1}}, PublicName: []byte(strings.Repeat("a", size-51))}
+				c, berr := sp.Bytes()
+				if berr != nil || len(c) != size {
+					panic(fmt.Sprintf("harness: config size %d, want %d (%v)", len(c), size, berr))
+				}
+				cfgs = append(cfgs, c)
+				raw = append(raw, c)
+				total += len(c)
+			}
+			n = len(cfgs)
+			env.Count(fmt.Sprintf("list/total-bytes/%d", total))
 		}
 		l, err := ech.ConfigList(cfgs)
 		var ops []core.Op
